@@ -10,6 +10,8 @@ DefsFile == IF IOEnv.DEFS = "-" THEN <<>> ELSE JsonDeserialize(IOEnv.DEFS)
 
 P == INSTANCE PReader WITH Defs <- DefsFile
 PW == INSTANCE PWriter WITH Defs <- DefsFile
+PR == INSTANCE PRoute WITH Defs <- DefsFile
+PT == INSTANCE PTlog WITH Defs <- DefsFile
 
 VARIABLES l, ref, tss
 
@@ -39,6 +41,16 @@ NextWriter(r) ==
   IN /\ IF fin.bad = {} THEN TRUE ELSE PrintT(<<"REJECT", l, r.seq, r.e, fin.bad, fin.firstbad>>)
      /\ UNCHANGED <<ref, tss>>
 
+NextRoute(r) ==
+  LET bad == IF r.e = "ROUTE" THEN PR!Check_ROUTE(r) ELSE PR!Check_FIX(r)
+  IN /\ IF bad = {} THEN TRUE ELSE PrintT(<<"REJECT", l, r.seq, r.e, bad>>)
+     /\ UNCHANGED <<ref, tss>>
+
+NextTlog(r) ==
+  LET bad == IF r.e = "TLOGW" THEN PT!Check_TLOGW(r) ELSE PT!Check_TLOGR(r)
+  IN /\ IF bad = {} THEN TRUE ELSE PrintT(<<"REJECT", l, r.seq, r.e, bad>>)
+     /\ UNCHANGED <<ref, tss>>
+
 Next ==
   /\ l <= Len(Trace)
   /\ LET r == Trace[l]
@@ -46,6 +58,8 @@ Next ==
           [] r.e = "WINSET"  -> NextWinSet(r)
           [] r.e = "WINHIST" -> NextWinHist(r)
           [] r.e \in {"WLINK", "WINIT"} -> NextWriter(r)
+          [] r.e \in {"ROUTE", "FIX"} -> NextRoute(r)
+          [] r.e \in {"TLOGW", "TLOGR"} -> NextTlog(r)
           [] OTHER -> PrintT(<<"REJECT", l, r.seq, r.e, {"H_unknown_record_kind"}>>) /\ UNCHANGED <<ref, tss>>
   /\ l' = l + 1
 
